@@ -58,7 +58,7 @@ def psFlags (p : PState) : List String :=
 
 def showCell (c : RedirCell) : String :=
   let h := match c.heredoc with
-    | some (Node.heredoc (a, b) v) => s!"{a},{b},{hexStr v}"
+    | some ((a, b), v) => s!"{a},{b},{hexStr v}"
     | _ => "-"
   s!"{c.pos.1},{c.pos.2},{h}"
 
